@@ -61,7 +61,7 @@ func (w *World) applyByz(a simrt.Action) bool {
 		w.tagSide(a, it, nil)
 		w.Faults.Inc("byz_vote")
 		return true
-	case "propose":
+	case "propose", "propose-bad":
 		// a block built on the state of any honest node that is at height h
 		var made bool
 		for _, nd := range w.nodes {
@@ -84,6 +84,11 @@ func (w *World) applyByz(a simrt.Action) bool {
 			txs := []types.Tx{types.Tx(fmt.Sprintf("byz-%d-%d-%d-%d", v.id, h, r, a.C))}
 			blk, parts := types.MakeBlock(h, ChainID, txs, nil, commit, v.addr, st.LastBlockID, st.Validators.Hash(), st.AppHash, st.ReceiptsHash, w.Cfg.BlockPartSize)
 			blk.Header.Time = w.start.Add(time.Duration(h*1000+r*10+a.C) * time.Millisecond)
+			if a.S == "propose-bad" {
+				if !w.tamperBlock(blk, v, idx, int(a.C)) {
+					continue
+				}
+			}
 			parts = blk.MakePartSet(w.Cfg.BlockPartSize)
 			prop := types.NewProposal(h, r, parts.Header(), -1, types.BlockID{})
 			prop.Signature = v.key.Sign(types.SignBytes(ChainID, prop))
@@ -127,4 +132,120 @@ func (w *World) tagSide(a simrt.Action, it *Item, setHash []byte) {
 		w.sideOf[string(setHash)] = s
 	}
 	w.Faults.Inc("split_attack_equivocation")
+}
+
+var badBlockKinds = []string{"lastcommit-underweight", "lastcommit-foreign-votes", "apphash", "validatorshash", "lastblockid", "height",
+	"chainid", "numtxs", "datahash", "receiptshash", "lastcommithash", "proposer", "lastcommit-duplicate-slot", "lastcommit-wrong-height"}
+
+// tamperBlock makes one thing wrong in a block a Byzantine proposer is about to propose. Honest
+// validators must never commit such a block (C02); whether they do is for the commit oracle to see.
+func (w *World) tamperBlock(blk *types.Block, v *valInfo, idx int, variant int) bool {
+	kind := badBlockKinds[variant%len(badBlockKinds)]
+	h := blk.Header.Height
+	flip := func(b []byte) []byte {
+		c := append([]byte{}, b...)
+		if len(c) == 0 {
+			return []byte{1}
+		}
+		c[0] ^= 0x55
+		return c
+	}
+	switch kind {
+	case "lastcommit-underweight", "lastcommit-foreign-votes", "lastcommit-duplicate-slot", "lastcommit-wrong-height":
+		if h == 1 || blk.LastCommit == nil || len(blk.LastCommit.Precommits) == 0 {
+			return false
+		}
+		ref := w.RefVals(h - 1)
+		if ref == nil {
+			return false
+		}
+		c := &types.Commit{BlockID: blk.LastCommit.BlockID, Precommits: append([]*types.Vote{}, blk.LastCommit.Precommits...)}
+		// drop precommits (largest index first) until what is left for the block is at most 2/3
+		power := func() int64 {
+			var p int64
+			for i, pc := range c.Precommits {
+				if pc != nil && pc.BlockID.Equals(c.BlockID) && i < len(ref.vals) {
+					p += ref.vals[i].power
+				}
+			}
+			return p
+		}
+		bidx := ref.indexOf(v.addr)
+		for i := len(c.Precommits) - 1; i >= 0 && power()*3 > ref.total*2; i-- {
+			if i != bidx {
+				c.Precommits[i] = nil
+			}
+		}
+		if power()*3 > ref.total*2 {
+			if bidx >= 0 {
+				c.Precommits[bidx] = nil
+			}
+			if power()*3 > ref.total*2 {
+				return false
+			}
+		}
+		var round int64
+		for _, pc := range blk.LastCommit.Precommits {
+			if pc != nil {
+				round = pc.Round
+			}
+		}
+		switch kind {
+		case "lastcommit-foreign-votes":
+			// the Byzantine validator's own, validly signed precommit for another block fills its slot
+			if bidx < 0 {
+				return false
+			}
+			other := types.BlockID{Hash: flip(c.BlockID.Hash), PartsHeader: c.BlockID.PartsHeader}
+			c.Precommits[bidx] = w.signVote(v, bidx, h-1, round, types.VoteTypePrecommit, other)
+		case "lastcommit-duplicate-slot":
+			// one honest precommit copied into the emptied slots
+			var src *types.Vote
+			for _, pc := range c.Precommits {
+				if pc != nil {
+					src = pc
+				}
+			}
+			if src == nil {
+				return false
+			}
+			for i := range c.Precommits {
+				if c.Precommits[i] == nil {
+					c.Precommits[i] = src
+				}
+			}
+		case "lastcommit-wrong-height":
+			if bidx < 0 {
+				return false
+			}
+			c.Precommits[bidx] = w.signVote(v, bidx, h, round, types.VoteTypePrecommit, c.BlockID)
+		}
+		blk.LastCommit = c
+		blk.Header.LastCommitHash = c.Hash()
+	case "apphash":
+		blk.Header.AppHash = flip(blk.Header.AppHash)
+	case "validatorshash":
+		blk.Header.ValidatorsHash = flip(blk.Header.ValidatorsHash)
+	case "lastblockid":
+		if h == 1 {
+			return false
+		}
+		blk.Header.LastBlockID.Hash = flip(blk.Header.LastBlockID.Hash)
+	case "height":
+		blk.Header.Height = h + 1
+	case "chainid":
+		blk.Header.ChainID = ChainID + "x"
+	case "numtxs":
+		blk.Header.NumTxs++
+	case "datahash":
+		blk.Header.DataHash = flip(blk.Header.DataHash)
+	case "receiptshash":
+		blk.Header.ReceiptsHash = flip(blk.Header.ReceiptsHash)
+	case "lastcommithash":
+		blk.Header.LastCommitHash = flip(blk.Header.LastCommitHash)
+	case "proposer":
+		blk.Header.ProposerAddress = flip(blk.Header.ProposerAddress)
+	}
+	w.Faults.Inc("byz_bad_block:" + kind)
+	return true
 }
